@@ -9,7 +9,8 @@ from . import C14
 
 ID = 'C03'
 PROFILES = ['dev']
-BOUNDS = {'operators': 'all 13 binary operators x all 36 kind pairs, payloads symbolic (all doubles, all strings, both booleans)',
+BOUNDS = {'program matrix': 'every statement / expression form (40 one-operand, 38 two-operand) with X of every kind {undefined name, mysterious, null, boolean, number, string, array, empty array, function} and the other operand of kind {number, string, array, null}: 1728 programs parsed by the real parser, all literals symbolic, executed by the real interpreter and by the reference interpreter; written lines / outcome / error class compared; forms the reference leaves undefined (cut / join / cast statements, array == array, string indexing) are kernel-level only',
+          'operators': 'all 13 binary operators x all 36 kind pairs, payloads symbolic (all doubles, all strings, both booleans)',
           'arrays': 'sequence length 0..=2, scalar elements, dictionary 0..=1 entries (array == array is checked by C14 laws, not by the table)',
           'list operands': 'rhs lists of 2 and 3 thunks (arrays <= 1 element without dictionary in quick, <= 2 with dictionary in thorough), each yielding a lazily symbolic value or failing; compared with the nested single-operator evaluation (same real code), including which thunks ran',
           'unary': 'minus / not over every literal kind through ProduceVal::visit_unary_expression', 'printing': 'to_string_for_output for every kind'}
@@ -361,6 +362,8 @@ def jobs(ctx, tier):
             js.append(Job(f'listfold/{op}/3', h_listfold, (mir, op, 3), witness=['fold-done'], weight=10))
     js.append(Job('unary', h_unary, (mir,), witness=['unary-done']))
     for ka in range(6): js.append(Job(f'print/{KINDS[ka]}', h_print, (mir, ka), witness=['print-done']))
+    from .matrix import matrix_jobs
+    js += matrix_jobs(ctx, mir)
     return js
 
 
@@ -431,6 +434,9 @@ def ref_json(v):
 
 def replay(ctx, f):
     cex = f.get('cex') or {}
+    if 'program' in cex:
+        from .progcommon import native_replay
+        return native_replay(ctx, cex['program'], f)
     out = {'reproduced': None}
     role = f['role']
     res = {}
